@@ -5,7 +5,7 @@
   ["+", a, b, ...]  ["*", a, b, ...]  ["/", a, b]  ["//", a, b]  ["%", a, b]  ["**", a, b]
   ["cmp", op, a, b]  ["not", a]  ["and", a, ...]  ["or", a, ...]
   ["if", c, t, e]  ["min", a, ...]  ["max", a, ...]
-  ["sub", agg, idx]          subscript
+  ["sub", agg, idx]          subscript;  ["sub", agg, i, j] a two-dimensional one (the index is a tuple)
   ["call", fname, [args], {kw: expr}]   (Call if no kwargs else CallWithKwargs)
   ["attr:NAME", agg]         attribute lookup agg.NAME (real, imag, size)
 """
@@ -46,6 +46,8 @@ def build(d):
     if k == "max":
         return p.Max(tuple(build(x) for x in d[1:]))
     if k == "sub":
+        if len(d) > 3:
+            return p.Subscript(build(d[1]), tuple(build(x) for x in d[2:]))
         return p.Subscript(build(d[1]), build(d[2]))
     if k.startswith("attr:"):
         return p.Lookup(build(d[1]), k[5:])
@@ -126,7 +128,7 @@ def to_dsl(e):
         idx = e.index
         if isinstance(idx, tuple):
             if len(idx) != 1:
-                raise ValueError("multi-index")
+                return ["sub", to_dsl(e.aggregate)] + [to_dsl(x) for x in idx]
             idx = idx[0]
         return ["sub", to_dsl(e.aggregate), to_dsl(idx)]
     if n == "Lookup":
@@ -226,7 +228,7 @@ class Gen:
         if depth <= 0:
             return self.leaf_num()
         choices = [o for o in ("+", "*", "/", "**", "if", "min", "max", "call",
-                               "callkw", "sub", "leaf", "//", "%", "attr") if o in self.ops or o == "leaf"]
+                               "callkw", "sub", "leaf", "//", "%", "attr", "sub2") if o in self.ops or o == "leaf"]
         o = self.rng.choice(choices)
         if o == "leaf":
             return self.leaf_num()
@@ -251,6 +253,11 @@ class Gen:
             if not self.arrays:
                 return self.leaf_num()
             return ["sub", ["v", self.rng.choice(self.arrays)], self.num(depth - 1)]
+        if o == "sub2":
+            # opt-in: a two-dimensional subscript m[i, j] (pymbolic stores the index as a tuple)
+            if not self.arrays:
+                return self.leaf_num()
+            return ["sub", ["v", self.rng.choice(self.arrays)], self.num(depth - 1), self.num(depth - 1)]
         if o == "attr":
             # opt-in (not in the default operator set): z.real / z.imag of a scalar variable, v.size of an array
             if self.arrays and self.rng.random() < 0.3:
